@@ -135,7 +135,7 @@ func evalName(node *jparse.NameNode, data reflect.Value, env *environment) (refl
 	data = jtypes.Resolve(data)
 
 	switch {
-	case jtypes.IsStruct(data):
+	case jtypes.IsStruct(data) && !jtypes.IsCallable(data):
 		v = data.FieldByName(node.Value)
 	case jtypes.IsMap(data):
 		v = data.MapIndex(reflect.ValueOf(node.Value))
@@ -1260,9 +1260,12 @@ func walkObjectValues(v reflect.Value, fn func(reflect.Value)) {
 		for _, k := range v.MapKeys() {
 			fn(v.MapIndex(k))
 		}
-	case jtypes.IsStruct(v):
+	case jtypes.IsStruct(v) && !jtypes.IsCallable(v):
 		for i, N := 0, v.NumField(); i < N; i++ {
-			fn(v.Field(i))
+			// Skip unexported fields.
+			if f := v.Field(i); f.CanInterface() {
+				fn(f)
+			}
 		}
 	}
 }
